@@ -209,6 +209,9 @@ class ForestGen:
             if k == "partial":
                 partial_units.append(u)
         f = Forest(units)
+        if len(units) >= 2 and self.chance(0.5):
+            f.table_shuffle = self.r.randint(0, 1 << 30)
+            self.label("abbrev-tables-out-of-order")
         if cfg.refs:
             self.add_ref_chains(f)
         return f
